@@ -198,7 +198,17 @@ def mirror(W, cfg):
         ok, S3 = call(W, 'C05:resume-no-raise', lambda: resume(W, S, path))
         if not ok:
             return
-        same_state(W, S, S3, 'C05:file-mirrors-state-after-step')
+        if same_state(W, S, S3, 'C05:file-mirrors-state-after-step') and \
+                S.explored:
+            # discard set after a resume is the same view as on the live
+            # object (C12 clause "or set after a resume")
+            flip = not S._discard_exploration
+            ok1, _ = call(W, 'C12:setter-no-raise',
+                          lambda: setattr(S, 'discard_exploration', flip))
+            ok2, _ = call(W, 'C12:setter-no-raise',
+                          lambda: setattr(S3, 'discard_exploration', flip))
+            if ok1 and ok2:
+                same_state(W, S, S3, 'C12:discard-after-resume-same-view')
     finally:
         cleanup(W)
 
@@ -316,6 +326,18 @@ def check_after_crash(W, S, path, old, new, had_file, where):
     good = good or (got is not None and old is not None and
                     match(W, got, old))
     W.require(good, 'C06:old-or-new-state', where)
+    if good:
+        # re-running the script continues: the resumed sampler can write its
+        # next full checkpoint (a left-over temporary file must not block it)
+        try:
+            S2.write(path, overwrite=True)
+            W.ok('C06:rerun-can-checkpoint')
+        except (world.ReplayDone, world.ReplayMismatch):
+            raise
+        except Exception as e:
+            W.fail('C06:rerun-can-checkpoint', '%s: next full write of the '
+                   'resumed sampler raises %s: %s' % (
+                       where, type(e).__name__, str(e)[:80]))
 
 
 def crash_concrete(W, cfg, S, path, args, old, had_file, K):
@@ -349,7 +371,7 @@ def crash_concrete(W, cfg, S, path, args, old, had_file, K):
         os.replace(path, crashed)
     tmp_left = os.path.exists(path + '.tmp')
     if tmp_left:
-        os.remove(path + '.tmp')
+        os.replace(path + '.tmp', path + '.tmp.crashed')
     if had_file:
         shutil.copy(keep, path)
     realh5.reset(kill_at=None)
@@ -361,8 +383,12 @@ def crash_concrete(W, cfg, S, path, args, old, had_file, K):
         return
     if os.path.exists(path):
         os.remove(path)
+    if os.path.exists(path + '.tmp'):
+        os.remove(path + '.tmp')
     if left:
         os.replace(crashed, path)
+    if tmp_left:
+        os.replace(path + '.tmp.crashed', path + '.tmp')
     where = 'kill after %d file operations (real h5py, child exit %d)' % (
         kk, code)
     check_after_crash(W, S, path, old, new, had_file, where)
